@@ -192,8 +192,7 @@ def run(ctx) -> None:
                          "as None, a required float field makes the receiver reject the whole message - and a str with a lone "
                          "surrogate cannot be encoded at all; the same message does round-trip through json.dumps/json.loads",
                          function=f"{mod.name}:{where}", file=mod.relpath)
-    if n_sites < 6:
-        raise AnchorError(f"only {n_sites} serialize() call sites found in openpectus.protocol (floor 6)")
+    ctx.floor("R26d", 6)
 
     # ---- R26c: no model in the closure customises its own (de)serialisation
     ctx.rule("R26c", "no protocol model customises how it is dumped or validated")
